@@ -1,4 +1,5 @@
 import DriverLib.Basic
+import DriverLib.ArgConv
 import QV.Model.Batching
 import DriverLib.CallForm
 open Lean Drv QV QV.Batching
@@ -106,6 +107,7 @@ def handle (op : String) (j : Json) : Option (R Json) :=
   | "c07.heap" => some (heap j)
   | "c07.refbasis" => some (refbasis j)
   | "c07.bind" => some (Drv.CallForm.bindOp j)
+  | "c07.fit_convert" => some (Drv.ArgConv.fitConvertOp j)
   | _ => none
 
 end Drv.C07
